@@ -186,6 +186,8 @@ pub enum Effect {
     UnsubSibling { k: usize },
     StateUnsub { sub: usize },
     DropVar { var: usize },
+    /// deferred write to a var immediately followed by dropping its last handle
+    WriteThenDropVar { var: usize, op: WriteOp },
     DropNode { node: usize },
     IsStable,
     /// misuse (C19 only)
@@ -228,6 +230,9 @@ pub enum BodyExpr {
     Bind(Box<BodyExpr>, Box<BodySpec>),
     /// call memoised function `m` with key `(k + l) mod 3`
     Memo { m: usize, k: i64 },
+    /// memoise a constructor *inside* the closure (its nodes belong to this run of the bind)
+    /// and call it with key `(k + l) mod 3`
+    LocalMemo { k: i64 },
 }
 
 #[derive(Serialize, Deserialize, Clone, Debug, PartialEq)]
